@@ -293,6 +293,23 @@ class Stack:
             self.service.register_eventgroup(eg)
             self.evgroups[g["id"]] = eg
         self.service.start_announce(self.prot.announcer)
+        # recording wrappers on the instance: what the SD layer tells the service
+        svc, sim = self.service, self.sim
+        orig_sub, orig_unsub = svc.client_subscribed, svc.client_unsubscribed
+
+        def client_subscribed(subscription, source):
+            try:
+                orig_sub(subscription, source)
+            except sd.NakSubscription:
+                sim.rec("cb", NODE_NAME, ("rejected", "SVC", subkey(subscription), source, subscription.ttl))
+                raise
+            sim.rec("cb", NODE_NAME, ("subscribed", "SVC", subkey(subscription), source, subscription.ttl))
+
+        def client_unsubscribed(subscription, source):
+            sim.rec("cb", NODE_NAME, ("unsubscribed", "SVC", subkey(subscription), source, subscription.ttl))
+            orig_unsub(subscription, source)
+
+        svc.client_subscribed, svc.client_unsubscribed = client_subscribed, client_unsubscribed
 
     # -- ops
     def clistener(self, name):
